@@ -250,7 +250,7 @@ theorem gen_balanced_partial (isFn : Nat → Bool) (es : List Expr) (gs gs' : GS
     exact ⟨[some restState], by simp only [B, List.map_nil]; decide⟩
   | cons e es =>
     obtain ⟨_, hadds⟩ := bal_compileBegin isFn (e :: es) {} gs code t gs' rfl hok (by simp) h
-    obtain ⟨mid, hfrag⟩ := hadds [] T restState (by decide)
+    obtain ⟨mid, hfrag⟩ := hadds {} T restState (by decide)
     exact ⟨_, verify_top_of_frag (B T code) mid hfrag⟩
 
 /-- The helper function the VM compiles for an operand (`EvalCallExpression`) or a lazy
@@ -262,7 +262,7 @@ theorem gen_balanced_operand (isFn : Nat → Bool) (e : Expr) (gs gs' : GS) (cod
     (h : compile isFn {} e gs = Except.ok ((code, t), gs')) :
     ∃ ann, verify { kind := .thunk, code := B T (code ++ [Instr.ret]) } ann = true := by
   obtain ⟨_, hadds⟩ := bal_compile isFn e {} gs code t gs' rfl hok h
-  obtain ⟨mid, hfrag⟩ := hadds [] T restState (by decide)
+  obtain ⟨mid, hfrag⟩ := hadds {} T restState (by decide)
   have := verify_thunk_of_frag (B T code) mid hfrag
   exact ⟨(restState :: mid ++ [bump restState 1]).map some ++ [none], by simpa [B, toB] using this⟩
 
